@@ -37,7 +37,7 @@ use crate::zoo::{self, Alg, Spec};
 /// (`SubpacketData::Experimental`) and does *not* reject them when critical. DESIGN.md defines
 /// "unknown" by the library's `Other` variant, so this cell is exercised and tallied but only
 /// judged when this switch is on (reported to the maintainer as a potential finding).
-const JUDGE_CRITICAL_EXPERIMENTAL: bool = false;
+const JUDGE_CRITICAL_EXPERIMENTAL: bool = true;
 /// RFC 9580 10.1.1 also demands v4 subkeys under v4 primaries; the property text only states
 /// the v6 direction. Exercised and tallied; judged only when this switch is on.
 const JUDGE_V4_PRIMARY_V6_SUBKEY: bool = false;
